@@ -95,8 +95,10 @@ def count_wildcards(g):
 
 def regex_size_weight(g):
     """over-estimate of the compiled size of the regex for g: a literal costs 32 bytes per UTF-8
-    byte (measured: first failure at 327 675 bytes, whatever the characters), a wildcard at most
-    1 040 (measured first failures between 9 855 and 10 878 wildcards); the costs add up"""
+    byte (measured: first failure at 327 675 bytes, whatever the characters: 81 919 x U+1F600,
+    109 225 x U+4E2D, 163 838 x U+00E9, 327 675 x 'a'), a wildcard between 964 and 1 064
+    (measured first failures between 9 855 and 10 878 wildcards); the costs add up
+    (100 000 x 'a' + 7 257 x '*', 200 000 x 'a' + 4 239 x '?', 300 000 x 'a' + 883 x '*' fail)"""
     return 1100 * count_wildcards(g) + 32 * len(g.encode("utf-8"))
 
 def in_regex_size_class(patterns):
@@ -213,7 +215,7 @@ def glob_size_limit_cases(prefix="z"):
     return [(f"{prefix}0", [hexs("?" * 12000), hexs("a" * 12000)]),
             (f"{prefix}1", [hexs("?" * 6000), hexs("a" * 6000), hexs("a" * 5999)]),
             (f"{prefix}2", [hexs(smile * 90000), hexs(smile * 90000), hexs("b")]),
-            (f"{prefix}3", [hexs("a" * 70000 + "*" * 8000), hexs("b"), hexs("a" * 70000)]),
+            (f"{prefix}3", [hexs("a" * 100000 + "*" * 8000), hexs("b"), hexs("a" * 100000)]),
             (f"{prefix}4", [hexs(smile * 60000 + "?" * 1500), hexs("b"), hexs(smile * 60000 + "x" * 1500)])]
 
 def glob_nonutf8_cases(prefix="u"):
